@@ -61,7 +61,8 @@ def _gen_curve(rng, cls, dims=(0, 0, 2), maxp=3):
         vals = sorted(set(Fraction(rng.randint(-24, 48), rng.choice([1, 2, 3, 4, 6, 12])) for _ in range(nint + 2)))
     while len(vals) < 2:
         vals = sorted(set(vals + [vals[-1] + 1]))
-    mults = [p + 1] + [rng.randint(1, max(1, p)) for _ in vals[1:-1]] + [p + 1]
+    top = p + 1 if (maxp > 3 and rng.random() < 0.3) else max(1, p)     # sometimes a jump (multiplicity degree+1) inside
+    mults = [p + 1] + [rng.randint(1, top) for _ in vals[1:-1]] + [p + 1]
     npts = sum(mults) - p - 1
     dim = rng.choice(dims)
     pts = []
